@@ -1,5 +1,6 @@
 (** Command dispatcher of the executable model. *)
 From RP2V Require Import Base.Prelude Model.Entry.
+From RP2V Require Import Model.EntryJp.
 Open Scope Z_scope.
 
 Definition entry (cmd : Z) (args : list Z) : list Z :=
@@ -12,4 +13,8 @@ Definition entry (cmd : Z) (args : list Z) : list Z :=
   if cmd =? 13 then entry_events args else
   if cmd =? 30 then entry_computed args else
   if cmd =? 40 then entry_parse args else
+  if cmd =? 80 then entry_jp args else
+  if cmd =? 81 then entry_jp_repaired args else
+  if cmd =? 82 then entry_jp_unrepaired args else
+  if cmd =? 83 then entry_jp_flags args else
   [-999].
